@@ -118,12 +118,12 @@ CLAIMS = {
  "C08": dict(level="model_checking", design_ref="DESIGN.md 4/C08",
    text="SignExtend.tla models extending (signatures with/without calendar chain, publication or authentication record x targets head / equal / later / earlier / "
         "supplied publication record) with the extender's reply as an 11-attribute vector deviating from the honest reply in at most two attributes; TLC checks "
-        "SuccessOnlyIfValid and exports every behaviour, which is replayed through KSI_Signature_extendTo / KSI_Signature_extend over the real blocking TCP client "
+        "SuccessOnlyIfValid and exports every behaviour, which is replayed through KSI_Signature_extendTo / KSI_Signature_extend over the real blocking TCP client and (targets head / supplied record) through KSI_AsyncExtendingHandle_new + KSI_AsyncHandle_getSignature on the extending asynchronous service "
         "with replies from the independent reference extender (right links taken over from the old chain). Success must coincide with the spec; the result must be "
         "the source aggregation chains byte-identical + the new calendar chain (+ the supplied publication record) with former records removed; the source "
         "serialization must not change. HashChain.tla's declarative Compatible(a,b) is compared with KSI_CalendarHashChain_verifyCompatibilityTo on all pairs of "
         "small chains over a two-value hash alphabet.",
-   note="quick: all single deviations + 300 sampled double deviations, chain pairs with <=2 links; thorough: all 2.6e3 behaviours, <=3 links. Async extending and KSI_extendSignature are C04's. Defect F-C08-1 fixed.",
+   note="quick: all single deviations + 300 sampled double deviations, chain pairs with <=2 links; thorough: all 2.6e3 behaviours, <=3 links. KSI_extendSignature is C04's. Defects F-C08-1, F-C08-2 fixed.",
    technique="TLC model checking of the protocol + replay of all TLC behaviours into the real extending calls; declarative compatibility relation vs libksi on all small chain pairs"),
  "C06": dict(level="model_checking", design_ref="DESIGN.md 4/C06",
    text="Pdu.tla models a serialized PDU as regions (outer header, header, payload, MAC TLV header, MAC algorithm octet, digest), MacInput per PDU version, an "
